@@ -732,6 +732,227 @@ def worker_project(job: T.Tuple[int, int, int, int]) -> dict:
     return bag.export()
 
 
+# ------------------------------------------------------------------------------------------------
+# histories on ONE build directory: configure, edit template/data, reconfigure, compare what is on disk
+# ------------------------------------------------------------------------------------------------
+def item_statements(it: dict) -> T.List[str]:
+    v = it['var']
+    out = [f'{v} = configuration_data()']
+    for k, val in it['data'].items():
+        out.append(f'{v}.set({mstr(k)}, {mval(val)})')
+    if it['kind'] == 'template':
+        out.append(f"configure_file(input: '{it['name']}.in', output: '{it['name']}.out', configuration: {v}, "
+                   f"format: '{it['fmt']}')")
+    else:
+        kw = f"output: '{it['name']}', configuration: {v}, output_format: '{it['output_format']}'"
+        if it['macro_name']:
+            kw += f", macro_name: '{it['macro_name']}'"
+        out.append(f'configure_file({kw})')
+    return out
+
+
+def edit_item(rng: random.Random, it: dict, rnd: int) -> str:
+    """Change the template / data of one item for the next round; returns the edit's name.  'append',
+    'truncate', 'add-last-key', 'remove-last-key' make the new output a line-wise extension / prefix of
+    the old one; the others are controls."""
+    if it['kind'] == 'template':
+        lines = R.split_lines(it['text'])
+        names = list(it['data']) + ['U_hist']
+        ph = (lambda n: '${' + n + '}') if it['fmt'] == 'cmake' and rng.random() < 0.5 else (lambda n: '@' + n + '@')
+        edit = rng.choice(['append', 'append', 'truncate', 'truncate', 'middle', 'value', 'none'])
+        if edit == 'append':
+            for j in range(rng.randint(1, 3)):
+                lines.append(f'added in round {rnd}.{j}: {ph(rng.choice(names))} end\n')
+        elif edit == 'truncate':
+            if len(lines) < 2:
+                return 'none'
+            del lines[-rng.randint(1, min(2, len(lines) - 1)):]
+        elif edit == 'middle':
+            lines.insert(len(lines) // 2, f'inserted in round {rnd}: {ph(rng.choice(names))}\n')
+        elif edit == 'value':
+            if not it['data']:
+                return 'none'
+            k = rng.choice(list(it['data']))
+            it['data'][k] = f'changed{rnd}'
+        it['text'] = ''.join(lines)
+        return edit
+    data = it['data']
+    edit = rng.choice(['add-last-key', 'add-last-key', 'remove-last-key', 'remove-last-key', 'add-first-key',
+                       'change-value', 'none'])
+    if edit == 'add-last-key':
+        data[f'zz_last{rnd}'] = rng.choice([1, 'tok', True, '"s"'])
+    elif edit == 'remove-last-key':
+        if not data:
+            return 'none'
+        del data[max(data)]
+    elif edit == 'add-first-key':
+        data[f'0first{rnd}'] = rng.choice([0, 'tok', False])
+    elif edit == 'change-value':
+        if not data:
+            return 'none'
+        k = rng.choice(list(data))
+        data[k] = rnd * 100 + 7
+    return edit
+
+
+def make_history_items(rng: random.Random, nt: int, nh: int, bag: Bag) -> T.List[dict]:
+    items: T.List[dict] = []
+    tries = 0
+    while len(items) < nt and tries < nt * 6:
+        tries += 1
+        case = G.gen_case(rng, fmt=rng.choice(['meson', 'meson', 'cmake', 'cmake@']), charset='ascii', risky=False,
+                          allow_newline_values=False)
+        text = case['text']
+        if not text.endswith('\n'):
+            text += '\n'
+        data = dict(case['data'])
+        if run_real(text, data, case['fmt'])[0] != 'ok':
+            continue
+        i = len(items)
+        items.append({'kind': 'template', 'name': f'ht{i}', 'var': f'cd_t{i}', 'fmt': case['fmt'], 'text': text,
+                      'data': data, 'edits': []})
+    for j in range(nh):
+        h = G.gen_header_case(rng)
+        ext = {'c': 'h', 'nasm': 'asm', 'json': 'json'}[h['output_format']]
+        items.append({'kind': 'header', 'name': f'hh{j}.{ext}', 'var': f'cd_h{j}', 'output_format': h['output_format'],
+                      'macro_name': h['macro_name'], 'data': dict(h['data']), 'edits': []})
+    return items
+
+
+def check_history_round(bdir: str, items: T.List[dict], bag: Bag, rnd: int, r: T.Any) -> None:
+    events = {e.get('src') or e.get('dst'): e for e in r.records if e.get('ev') in ('conf_file', 'header')}
+    for e in r.records:
+        if e.get('ev') == 'contracts':
+            for k, v in e['counts'].items():
+                bag.tally.add(k, v)
+            for v in e['violations']:
+                bag.note(v['mechanism'], {'mode': 'contract-in-meson', **v['witness']})
+    for it in items:
+        key = it['name'] + '.in' if it['kind'] == 'template' else it['name']
+        ev = events.get(key)
+        if ev is None or ev['data'] != it['data']:
+            bag.tally.add('inconclusive:harness-data-not-transported')
+            bag.note('harness:meson-build-does-not-carry-the-data',
+                     {'mode': 'harness', 'intended': it['data'], 'seen': ev and ev['data']})
+            continue
+        bag.tally.add('monitor:history-output-current')
+        bag.cells['history-edit:' + (it['edits'][-1] if it['edits'] else 'initial')] = \
+            bag.cells.get('history-edit:' + (it['edits'][-1] if it['edits'] else 'initial'), 0) + 1
+        witness = {'mode': 'history', 'kind': it['kind'], 'edits': list(it['edits']),
+                   'rounds': it['rounds'] + [{'statements': item_statements(it),
+                                              'template': it.get('text')}],
+                   'item': {k: it[k] for k in ('name', 'fmt', 'output_format', 'macro_name', 'data') if k in it}}
+        try:
+            fn = it['name'] + '.out' if it['kind'] == 'template' else it['name']
+            with open(os.path.join(bdir, fn), encoding='utf-8', newline='') as f:
+                got = f.read()
+        except (OSError, UnicodeDecodeError) as e:
+            bag.note('file:output-unreadable', dict(witness, detail={'error': repr(e)}))
+            continue
+        stale = it.get('last_disk') is not None and got == it['last_disk']
+        if it['kind'] == 'template':
+            case = {'fmt': it['fmt'], 'text': it['text'], 'data': dict(it['data']), 'markers': {}}
+            real = do_case(bag, case, mode='file')
+            if real[0] != 'ok':
+                bag.tally.add('inconclusive:history-template-rejected-in-process')
+                continue
+            want = ''.join(real[1])
+            if got != want:
+                mech = 'file:stale-output-kept-after-reconfigure' if stale else 'file:output-differs-from-do_conf_str'
+                bag.note(mech, dict(witness, detail={'on_disk': got, 'expected_for_current_template_and_data': want}))
+        else:
+            why = R.check_header(got, it['data'], it['output_format'], it['macro_name'])
+            if why is not None:
+                mech = 'file:stale-output-kept-after-reconfigure' if stale else 'header:' + why.split(':')[0]
+                bag.note(mech, dict(witness, detail={'why': why, 'on_disk': got}))
+        it['last_disk'] = got
+
+
+def write_history_tree(src: str, items: T.List[dict]) -> None:
+    mb = ["project('c14 history', meson_version: '>=1.3.0')"]
+    files: T.Dict[str, T.Union[str, bytes]] = {}
+    for it in items:
+        mb += item_statements(it)
+        if it['kind'] == 'template':
+            files[it['name'] + '.in'] = it['text'].encode('utf-8')
+    files['meson.build'] = '\n'.join(mb) + '\n'
+    runner.write_tree(src, files)
+
+
+def worker_history(job: T.Tuple[int, int, int, int, int]) -> dict:
+    seed, idx, nt, nh, nrounds = job
+    rng = random.Random(f'C14:history:{seed}:{idx}')
+    bag = Bag()
+    K.REC.reset()
+    root = common.scratch_dir('c14p') if os.getpid() == common._MAIN_PID else None
+    tmp = root or __import__('tempfile').mkdtemp(prefix='c14p-')
+    try:
+        src = os.path.join(tmp, 'src')
+        bdir = os.path.join(tmp, 'build')
+        os.makedirs(src)
+        items = make_history_items(rng, nt, nh, bag)
+        for it in items:
+            it['rounds'] = []
+        for rnd in range(nrounds):
+            if rnd:
+                for it in items:
+                    it['rounds'].append({'statements': item_statements(it), 'template': it.get('text')})
+                    before = (it.get('text'), dict(it['data']))
+                    ed = edit_item(rng, it, rnd)
+                    if it['kind'] == 'template' and run_real(it['text'], it['data'], it['fmt'])[0] != 'ok':
+                        it['text'], it['data'] = before[0], before[1]
+                        ed = 'none'
+                    it['edits'].append(ed)
+            write_history_tree(src, items)
+            argv = ['setup', '--backend=none', bdir] if rnd == 0 else ['setup', '--reconfigure', bdir]
+            r = runner.meson(argv, cwd=src, monitors=[K.child_monitor], timeout=120)
+            bag.tally.add('history:rounds')
+            if r.timed_out:
+                bag.tally.add('inconclusive:file-project-timeout')
+                break
+            if r.rc != 0:
+                mech = 'file:internal-error' if r.traceback else 'file:setup-rejects-batch'
+                bag.note(mech, {'mode': 'project', 'round': rnd, **r.brief()})
+                break
+            check_history_round(bdir, items, bag, rnd, r)
+        bag.cases += len(items)
+        bag.shapes.add(common.digest(('history', tuple(tuple(it['edits']) for it in items))))
+        drain_contracts(bag)
+    finally:
+        if root is None:
+            shutil.rmtree(tmp, ignore_errors=True)
+    return bag.export()
+
+
+def replay_history(w: dict) -> int:
+    tmp = common.scratch_dir('c14r')
+    src, bdir = os.path.join(tmp, 'src'), os.path.join(tmp, 'b')
+    os.makedirs(src)
+    item = w['item']
+    got = ''
+    for rnd, rd in enumerate(w['rounds']):
+        tree: T.Dict[str, T.Union[str, bytes]] = {
+            'meson.build': "project('r', meson_version: '>=1.3.0')\n" + '\n'.join(rd['statements']) + '\n'}
+        if w['kind'] == 'template':
+            tree[item['name'] + '.in'] = rd['template'].encode('utf-8')
+        runner.write_tree(src, tree)
+        r = runner.meson(['setup', '--backend=none', bdir] if rnd == 0 else ['setup', '--reconfigure', bdir], cwd=src)
+        if r.rc != 0:
+            print('[C14] replay: round', rnd, 'failed to configure')
+            return 1
+    fn = item['name'] + '.out' if w['kind'] == 'template' else item['name']
+    with open(os.path.join(bdir, fn), encoding='utf-8', newline='') as f:
+        got = f.read()
+    if w['kind'] == 'template':
+        real = run_real(w['rounds'][-1]['template'], item['data'], item['fmt'])
+        bad = real[0] != 'ok' or got != ''.join(real[1])
+    else:
+        bad = R.check_header(got, item['data'], item['output_format'], item['macro_name']) is not None
+    print('[C14] replay: edits', w.get('edits'), '-> output on disk is', 'NOT that of the current template/data' if bad else 'current')
+    print('[C14] replay: witness', 'STILL FAILS' if bad else 'no longer fails')
+    return 1 if bad else 0
+
+
 def check_descriptions(text: str, hc: dict) -> T.Optional[str]:
     """Configuration.md: the description is placed (as a comment) before the value."""
     prefix = '#' if hc['output_format'] == 'c' else '%'
@@ -854,6 +1075,8 @@ def replay(chk: common.Check, path: str) -> int:
     mode = w.get('mode')
     print(f'[C14] replay {path}: mode={mode} mechanism={mech}')
     src = w.get('minimised') or w
+    if mode == 'history':
+        return replay_history(w)
     if mode == 'header' and w.get('sequence'):
         sq = w['sequence']
         tmp = common.scratch_dir('c14r')
@@ -1009,6 +1232,11 @@ def main() -> int:
     for part in common.pmap(worker_project, [(chk.seed, i, 30, 6) for i in range(nproj)], jobs):
         merge(chk, total, part)
 
+    # 5. histories on one build directory (configure, edit, reconfigure)
+    nhist = 10 if quick else 80
+    for part in common.pmap(worker_history, [(chk.seed, i, 6, 5, 4) for i in range(nhist)], jobs):
+        merge(chk, total, part)
+
     # ---- verdict -------------------------------------------------------------------------------
     chk.evaluations = total.cases
     chk.distinct = set(total.shapes)
@@ -1034,7 +1262,7 @@ def main() -> int:
         ('monitor:scanner-equality', 10000), ('monitor:copy-through', 10000), ('monitor:no-rescan', 2000),
         ('monitor:line-ending', 10000), ('monitor:missing-set', 2000), ('monitor:define-render', 1000),
         ('monitor:define-line-ending', 1000), ('monitor:file-output-equals', 100), ('monitor:missing-warning', 100),
-        ('monitor:header-keys', 30), ('monitor:sequence-steps', 100),
+        ('monitor:header-keys', 30), ('monitor:sequence-steps', 100), ('monitor:history-output-current', 200),
         ('contract:do_conf_str:confstr_line_count_preserved', 1000),
         ('contract:do_replacement_meson:repl_meson_agrees_with_scanner', 10000),
         ('contract:do_define_meson:define_has_documented_form', 500),
